@@ -83,6 +83,11 @@ CLAIMED["C06"] = ("§3 C06",
     "Narrow: decides that integer +, -, * and the multiplier of number literals run in an exact decimal context (precision 0) while / and ** use precision >= 34, that numOp returns a number only without error/division-by-zero, that integer division tests for a zero divisor first, that the literal's integral test consults Inexact, and that / yields a float kind. It does not decide rounding correctness, comparison order, Euclidean identities, multiplier values or print/parse round trips. The defect found by this rule (34-digit rounding of big integers and of multiplier literals) was repaired in /repo (fix: commit 0f65d2f).",
     "apd semantics of precision 0 trusted; float +,-,* keep the 34-digit context (the spec permits rounding of floats)")
 
+CLAIMED["C01"] = ("§3 C01",
+    "per-case must-pass analysis of the two conjunct dispatchers (unshare or delegation on every path through an accumulating case), CFG gates on shareIfPossible, map-iteration order-leak classification over evaluator/compiler/build/load",
+    "Narrow: decides that every accumulating case of nodeContext.scheduleConjunct / insertValueConjunct excludes structure sharing (n.unshare() or delegation) on every path, that share() is reached only past the noSharing/isShared/no-arcs/no-errors guards and unshare is sticky, and that no map iteration in internal/core/adt, internal/core/compile, cue/build and cue/load feeds an unsorted order-sensitive sink. It does not decide commutativity, associativity or idempotence of the values computed (scheduler, disjunction cross product, closedness evidence).",
+    "order independence of the computed values is value-level and not claimed")
+
 # properties not claimed (yet) -> reason
 NOT_APPLICABLE = {
     "C03": "value-level: the content is the cell values of the bound-simplification decision table over numbers; no shape rule separates a correct table from an off-by-one (DESIGN.md §4)",
